@@ -170,6 +170,20 @@ Fixpoint count_common (fuel : nat) (ty : Z) (l : list av) (i size nc : Z) : Z :=
       end
   end.
 
+(* range_step_fits: the step from [from] to [to_] did not wrap and the span
+   from [first] to [to_] fits the type *)
+Definition range_step_fits (first from to_ delta : av) : option bool :=
+  match av_null (av_type delta) with
+  | Some zero =>
+      match av_cmp_single delta zero, av_sub to_ first with
+      | Some dir, Some span =>
+          match av_cmp_single to_ from, av_cmp_single span zero with
+          | Some c1, Some c2 => Some ((c1 =? dir) && (c2 =? dir))
+          | _, _ => None end
+      | _, _ => None end
+  | None => None
+  end.
+
 (* the second loop: Some (skipped, num_common) *)
 Fixpoint run_loop (fuel : nat) (args : list av) (size : Z) (has_delta : bool) (delta : av)
          (skipped nc : Z) : option (Z * Z) :=
@@ -188,7 +202,16 @@ Fixpoint run_loop (fuel : nat) (args : list av) (size : Z) (has_delta : bool) (d
       | None => None
       | Some l => match elem_eq l (skipz next args) with
                   | None => None
-                  | Some true => run_loop f args size has_delta delta next (nc + 1)
+                  | Some true =>
+                      if has_delta
+                      then match args, cur, l with
+                           | a0 :: _, c :: _, added :: _ =>
+                               match range_step_fits a0 c added delta with
+                               | Some true => run_loop f args size has_delta delta next (nc + 1)
+                               | Some false => Some (next, nc + 1)
+                               | None => None end
+                           | _, _, _ => None end
+                      else run_loop f args size has_delta delta next (nc + 1)
                   | Some false => Some (next, nc + 1)
                   end
       end
@@ -215,6 +238,13 @@ Definition convert_to_range (o : popts) (args : list av) (size : Z) : conv :=
       match dl with
       | None => CUnmod
       | Some delta =>
+          match (if e then Some true
+                 else match args with
+                      | a0 :: a1 :: _ => range_step_fits a0 a0 a1 delta
+                      | _ => None end) with
+          | None => CUnmod
+          | Some false => CNo
+          | Some true =>
           match run_loop (length args) args size (negb e) delta (incsize args) 1 with
           | None => CUnmod
           | Some (skipped, nc) =>
@@ -223,6 +253,7 @@ Definition convert_to_range (o : popts) (args : list av) (size : Z) : conv :=
               let used := 1 + hdz + incsize args in
               CYes (VRep nc hdz :: (if e then [] else [delta]) ++
                     firstn (Z.to_nat (incsize args)) args ++ [VSpc (skipped - used - 1)]) skipped
+          end
           end
       end
   end.
